@@ -3,6 +3,7 @@ import warnings
 from typing import Any
 from typing import Dict
 from typing import List
+from typing import Optional
 
 from ..logs import ExecutionLog
 from ..market import Market
@@ -41,6 +42,7 @@ class TradingHaltRule(EventABC):
         self.activation_count: int = 0
         self.target_markets: Dict[str, Market] = {}
         self.trigger_change_rate: float = 0.0
+        self.halted_session: Optional[Session] = None
 
     def setup(self, settings: Dict[str, Any], *args, **kwargs) -> None:  # type: ignore  # NOQA
         """event setup. Usually be called from simulator/runner automatically.
@@ -119,6 +121,7 @@ class TradingHaltRule(EventABC):
                         if simulator.current_session is None:
                             raise AssertionError
                         simulator.current_session.with_order_execution = False
+                        self.halted_session = simulator.current_session
 
     def hooked_before_step_for_market(
         self, simulator: Simulator, market: Market
@@ -130,8 +133,9 @@ class TradingHaltRule(EventABC):
                 if m == market:
                     if simulator.current_session is None:
                         raise AssertionError
-                    simulator.current_session.with_order_execution = True
-                    m._is_running = True
+                    if self.halted_session is simulator.current_session:
+                        simulator.current_session.with_order_execution = True
+                        m._is_running = True
                     self.halting_time_started = 0
 
 
